@@ -8,3 +8,5 @@ import DnsVerif.Props.C14
 #print axioms DnsVerif.Props.C14.table_no_race
 #print axioms DnsVerif.Props.C14.table_covers_fields
 #print axioms DnsVerif.Props.C14.lock_order_acyclic
+#print axioms DnsVerif.Props.C14.threeParty_iff
+#print axioms DnsVerif.Props.C14.no_three_party_wait
